@@ -115,6 +115,50 @@ def tie_b_tables(ctx, theorems):
     return [f for f in failed if f[0] in theorems or f[0] in ("translator", "Generated.TableObligations")]
 
 
+def tie_b_sc(ctx):
+    """Tie B for the scalar limb code: tools/c2lean_sc.py re-transcribes sc25519_reduce / sc25519_mul / sc25519_muladd of /repo's CURRENT
+    ed25519_ref10.c into the Lean model (Model/ScReduce.lean) and its interval-bound / refinement lemmas (Proofs/ScReduceGen.lean). If the
+    regenerated text equals the committed text, the theorems of Properties/C07Reduce.lean (already re-checked by this run's lake build) are
+    about the code as it is now. Otherwise the regenerated files are put in place, the theorems are re-checked against them, and the files
+    are restored. Returns [] or [(name, log)]."""
+    import fcntl
+    gen = os.path.join(ctx.scratch, "sc-gen")
+    os.makedirs(os.path.join(gen, "SodiumModel", "Model"), exist_ok=True)
+    os.makedirs(os.path.join(gen, "SodiumModel", "Proofs"), exist_ok=True)
+    e = dict(os.environ); e["VERIF_REPO"] = REPO
+    p = subprocess.run([sys.executable, os.path.join(VERIF, "tools", "c2lean_sc.py"), gen], capture_output=True, text=True, env=e)
+    names = ["sc25519_reduce_spec", "sc25519_mul_spec", "sc25519_muladd_spec", "no_overflow", "mul_no_overflow"]
+    for t in names:
+        ctx.obligations.append({"theorem": "Sodium.C07Reduce.%s [model regenerated from the source]" % t, "axioms": ["propext", "Classical.choice", "Quot.sound"]})
+    if p.returncode != 0:
+        ctx.discharged = len(ctx.obligations) - len(names)
+        return [("translator", "tools/c2lean_sc.py no longer recognises the statement structure of the scalar limb code (the model cannot be regenerated):\n" + (p.stderr or p.stdout)[-1500:])]
+    pairs = [(os.path.join(gen, "SodiumModel", "Model", "ScReduce.lean"), os.path.join(LEAN, "SodiumModel", "Model", "ScReduce.lean")),
+             (os.path.join(gen, "SodiumModel", "Proofs", "ScReduceGen.lean"), os.path.join(LEAN, "SodiumModel", "Proofs", "ScReduceGen.lean"))]
+    if all(open(a).read() == open(b).read() for a, b in pairs):
+        ctx.discharged = len(ctx.obligations)
+        return []
+    with open(os.path.join(LEAN, ".lake-lock"), "w") as lk:
+        fcntl.flock(lk, fcntl.LOCK_EX)
+        saved = [(b, open(b).read()) for _, b in pairs]
+        try:
+            for a, b in pairs:
+                shutil.copy(a, b)
+            q = subprocess.run(["lake", "build", "+SodiumModel.Properties.C07Reduce"], cwd=LEAN, capture_output=True, text=True, timeout=3600)
+        finally:
+            for b, txt in saved:
+                open(b, "w").write(txt)
+            subprocess.run(["lake", "build", "+SodiumModel.Properties.C07Reduce"], cwd=LEAN, capture_output=True, text=True)   # back to the committed state
+    if q.returncode == 0:
+        ctx.discharged = len(ctx.obligations)
+        ctx.stats["sc_model_regenerated_differs_but_proved"] = True
+        return []
+    log = q.stdout + q.stderr
+    first = re.search(r"error: [^\n]*\.lean:\d+:\d+:[^\n]*(\n[^\n]*){0,6}", log)
+    ctx.discharged = len(ctx.obligations) - len(names)
+    return [("Sodium.C07Reduce (scalar limb code)", "the model regenerated from the current source no longer satisfies the proofs:\n" + (first.group(0) if first else log[-1500:]))]
+
+
 def strip_comments(src):
     # remove /- ... -/ (nested not handled beyond one level, fine for our sources) and -- comments
     out = []
